@@ -41,6 +41,8 @@ def run(rep, tier, seed):
     C02_inter.streams(rep, tier, seed)
     C02_doms.streams(rep, tier, seed)
     import C02_refs; C02_refs.streams(rep, tier, seed)       # reference assertions over the region domains: oracle only
+    import C02_refcst
+    C02_refcst.streams(rep, tier, seed)
     # forward+backward analyzer: correspondence with the Coq mirror Ana/FwdBwd.v (theorem
     # C02_forward_backward_verdicts_sound applies to what the mirror prints) + concrete oracle
     rep.assumptions = [a.replace("forward+backward (refinement loop, dominance-based discharge) and inter-procedural verdicts",
